@@ -1192,6 +1192,7 @@ class ModFn(MethFn):
     CALLEES = dict(MethFn.CALLEES)
     for _n in ("QUOTER", "FRAGMENT_QUOTER", "PATH_QUOTER", "QUERY_QUOTER"):
         CALLEES[_n] = ("Q B " + _n, [("s", "str", None)], "str", False)
+    CALLEES["_idna_decode"] = ("idna_decode O", [("raw", "str", None)], "str", True)
     CALLEES["normalize_path_segments"] = ("normalize_path_segments", [("segments", "strs", None)], "strs", False)
     CALLEES["from_parts"] = ("from_parts", [("scheme", "str", None), ("netloc", "str", None), ("path", "str", None),
                                             ("query", "str", None), ("fragment", "str", None)], "url", False)
@@ -1333,6 +1334,10 @@ class ModFn(MethFn):
         return found
 
     def cond_bool(self, test, env):
+        # x and x[-1].isdigit()
+        if isinstance(test, ast.BoolOp) and isinstance(test.op, ast.And) and len(test.values) == 2 and isinstance(test.values[0], ast.Name) \
+                and env.get(test.values[0].id) == "str" and ast.unparse(test.values[1]) == test.values[0].id + "[-1].isdigit()":
+            return f"(match last_opt {test.values[0].id} with Some l0 => py_isdigit l0 | None => false end)"
         # x[0] == "c": the caller has checked that x is not empty (stmts wraps the statement in that check)
         if isinstance(test, ast.Compare) and len(test.ops) == 1 and isinstance(test.ops[0], (ast.Eq, ast.NotEq)) \
                 and isinstance(test.left, ast.Subscript) and isinstance(test.left.value, ast.Name) and env.get(test.left.value.id) == "str" \
@@ -1453,6 +1458,12 @@ class ModFn(MethFn):
         return super().branch(test, env, then_k, else_k)
 
     def stmts(self, body, env, rec):
+        # return f(x)  for a callee that may raise
+        if body and isinstance(body[0], ast.Return) and isinstance(body[0].value, ast.Call) and isinstance(body[0].value.func, ast.Name) \
+                and body[0].value.func.id in self.CALLEES and self.CALLEES[body[0].value.func.id][3] and self.fallible:
+            call = self.call_text(body[0].value, env)
+            v = self.coerce("r0", self.CALLEES[body[0].value.func.id][2], self.rtype)
+            return f"(match {call} with Err e => Err e | Ok r0 => Ok {v} end)"
         if body and isinstance(body[0], ast.Return) and isinstance(body[0].value, ast.Call) and isinstance(body[0].value.func, ast.Attribute) \
                 and isinstance(body[0].value.func.value, ast.Name) and env.get(body[0].value.func.value.id) == "url" \
                 and body[0].value.func.attr in self.methods and self.methods[body[0].value.func.attr] == self.rett and not body[0].value.keywords:
@@ -1625,7 +1636,7 @@ class ModFn(MethFn):
             env[a.arg] = t
             ps.append(f"({a.arg} : {ct})")
         body = self.stmts(list(fd.body), env, {})
-        base = {"url": "url", "strs": "list str", "str": "str", "bool": "bool"}[self.rtype]
+        base = {"url": "url", "strs": "list str", "str": "str", "bool": "bool", "optstr": "option str", "optint": "option N"}[self.rtype]
         rt = f"result ({base})" if self.fallible else base
         return f"Definition gen_{fd.name.strip('_')} {' '.join(ps)} : {rt} :=\n  {body}.", ([], self.rett)
 
@@ -1752,6 +1763,186 @@ class ParseFn(ProcFn):
                 (["str"] * len(params), "tuple4"))
 
 
+class HostFn(ParseFn):
+    """_encode_host of yarl/_url.py.  On top of ParseFn:
+    [x and (x[-1].isdigit() or "c" in x)] (index guarded by the truthiness of x);
+    [try: ip = ip_address(t) except ValueError: pass else: ...] is a match on the oracle answer
+    o_ip_parse (None: not an address; Some (version, compressed)), [ip.compressed] / [ip.version]
+    its components;  [(m := NOT_REG_NAME.search(t))] as a condition is "t is not a reg-name"
+    (Model.Host.regname_ok, whose tables are regenerated from the source), and a block that only
+    prepares the message of the ValueError it raises on every path - assignments from m.group(),
+    m.start(), slices, comparisons, f-strings - is that ValueError;  [t.lower()] is str.lower (the
+    oracle py_lower);  _idna_encode is the model's idna_encode (two oracles)."""
+
+    CALLEES = dict(ProcFn.CALLEES)
+    CALLEES["_idna_encode"] = ("idna_encode O", [("host", "str", None)], "str", True)
+
+    def expr(self, e, env):
+        if isinstance(e, ast.Call) and isinstance(e.func, ast.Attribute) and e.func.attr == "lower" and not e.args and not e.keywords:
+            a, ta = self.expr(e.func.value, env)
+            if ta == "str":
+                return f"(py_lower O {a})", "str"
+        if isinstance(e, ast.Attribute) and isinstance(e.value, ast.Name) and env.get(e.value.id) == "ipaddr":
+            if e.attr == "compressed":
+                return f"(snd {e.value.id})", "str"
+        return super().expr(e, env)
+
+    def cond_bool(self, test, env):
+        # x and (x[-1].isdigit() or "c" in x)
+        if isinstance(test, ast.BoolOp) and isinstance(test.op, ast.And) and len(test.values) == 2 and isinstance(test.values[0], ast.Name) \
+                and env.get(test.values[0].id) == "str" and isinstance(test.values[1], ast.BoolOp) and isinstance(test.values[1].op, ast.Or):
+            x = test.values[0].id
+            parts = []
+            for v in test.values[1].values:
+                if ast.unparse(v) == f"{x}[-1].isdigit()":
+                    parts.append("py_isdigit l0")
+                else:
+                    parts.append(self.cond_bool(v, env))
+            return f"(match last_opt {x} with Some l0 => {' || '.join(parts)} | None => false end)"
+        # ip.version == 6
+        if isinstance(test, ast.Compare) and len(test.ops) == 1 and isinstance(test.ops[0], ast.Eq) and isinstance(test.left, ast.Attribute) \
+                and isinstance(test.left.value, ast.Name) and env.get(test.left.value.id) == "ipaddr" and test.left.attr == "version" \
+                and isinstance(test.comparators[0], ast.Constant) and isinstance(test.comparators[0].value, int):
+            return f"(fst {test.left.value.id} =? {test.comparators[0].value})"
+        # validate and (m := NOT_REG_NAME.search(t))
+        if isinstance(test, ast.NamedExpr) and isinstance(test.value, ast.Call) and ast.unparse(test.value.func) == "NOT_REG_NAME.search" \
+                and len(test.value.args) == 1:
+            a, ta = self.expr(test.value.args[0], env)
+            if ta == "str":
+                return f"(negb (regname_ok {a}))"
+        return super().cond_bool(test, env)
+
+    def message_only(self, stmts):
+        """a block that raises ValueError on every path and otherwise only prepares its message"""
+        ok_nodes = (ast.Name, ast.Constant, ast.JoinedStr, ast.FormattedValue, ast.Tuple, ast.Compare, ast.BoolOp, ast.Subscript,
+                    ast.Slice, ast.Load, ast.Store, ast.And, ast.Or, ast.Eq, ast.In, ast.Call, ast.Attribute, ast.expr_context)
+
+        def expr_ok(e):
+            for n in ast.walk(e):
+                if isinstance(n, ast.Call):
+                    if not (isinstance(n.func, ast.Attribute) and n.func.attr in ("group", "start") and not n.args and not n.keywords):
+                        if not (isinstance(n.func, ast.Name) and n.func.id == "ValueError"):
+                            return False
+                elif isinstance(n, ast.Subscript):
+                    if not isinstance(n.slice, ast.Slice):
+                        return False               # an index could raise IndexError
+                elif not isinstance(n, ok_nodes):
+                    return False
+            return True
+
+        def block(ss):
+            if not ss:
+                return False
+            for st in ss[:-1]:
+                if isinstance(st, ast.Assign):
+                    if not expr_ok(st.value):
+                        return False
+                elif isinstance(st, ast.If):
+                    if not expr_ok(st.test):
+                        return False
+                    for sub in (st.body, st.orelse):
+                        if sub and not all(isinstance(x, ast.Assign) and expr_ok(x.value) for x in sub):
+                            return False
+                else:
+                    return False
+            last = ss[-1]
+            return isinstance(last, ast.Raise) and isinstance(last.exc, ast.Call) and ast.unparse(last.exc.func) == "ValueError" \
+                and expr_ok(last.exc) and (last.cause is None or (isinstance(last.cause, ast.Constant) and last.cause.value is None))
+        return block(list(stmts))
+
+    def stmts(self, body, env, rec):
+        if not body:
+            raise Untranslatable("a path falls off the end of the function")
+        st, rest = body[0], body[1:]
+        if isinstance(st, ast.Expr) and isinstance(st.value, ast.Constant):
+            return self.stmts(rest, env, rec)
+        # if cond: <message-only block ending in raise ValueError>
+        if isinstance(st, ast.If) and not st.orelse and self.message_only(st.body):
+            c = self.cond_bool(st.test, env)
+            return f"(if {c} then (Err ValueError) else {self.stmts(rest, env, rec)})"
+        # try: ip = ip_address(t) / except ValueError: pass / else: body
+        if isinstance(st, ast.Try) and len(st.body) == 1 and isinstance(st.body[0], ast.Assign) and len(st.handlers) == 1 \
+                and ast.unparse(st.handlers[0].type) == "ValueError" and len(st.handlers[0].body) == 1 \
+                and isinstance(st.handlers[0].body[0], ast.Pass) and not st.finalbody and st.orelse \
+                and isinstance(st.body[0].value, ast.Call) and ast.unparse(st.body[0].value.func) == "ip_address" \
+                and len(st.body[0].value.args) == 1 and isinstance(st.body[0].targets[0], ast.Name):
+            a, ta = self.expr(st.body[0].value.args[0], env)
+            if ta != "str":
+                raise Untranslatable("ip_address of " + ta)
+            ip = st.body[0].targets[0].id
+            e1 = dict(env)
+            e1[ip] = "ipaddr"
+            return (f"(match o_ip_parse O {a} with None => {self.stmts(rest, env, rec)} "
+                    f"| Some {ip} => {self.stmts(list(st.orelse) + rest, e1, rec)} end)")
+        if isinstance(st, ast.Return) and st.value is not None and not isinstance(st.value, ast.Tuple):
+            if isinstance(st.value, ast.IfExp):
+                c = self.cond_bool(st.value.test, env)
+                a, ta = self.expr(st.value.body, env)
+                b, tb = self.expr(st.value.orelse, env)
+                if ta == tb == "str":
+                    return f"(Ok (if {c} then {a} else {b}))"
+            v, tv = self.expr(st.value, env)
+            if tv != "str":
+                raise Untranslatable("return of type " + tv)
+            return f"(Ok {v})"
+        if isinstance(st, ast.If) and not st.orelse:
+            # a block that may return: the rest is the continuation of the fall-through
+            c = self.cond_bool(st.test, env)
+            return f"(if {c} then {self.stmts(list(st.body) + rest, env, rec)} else {self.stmts(rest, env, rec)})"
+        return super().stmts(body, env, rec)
+
+    def translate(self, fd):
+        if fd.args.vararg or fd.args.kwarg or fd.args.kwonlyargs or fd.args.posonlyargs or fd.args.defaults:
+            raise Untranslatable("signature of " + fd.name)
+        for d in fd.decorator_list:
+            if ast.unparse(d).split("(")[0] not in ("lru_cache", "functools.lru_cache"):
+                raise Untranslatable("decorator " + ast.unparse(d))
+        env, ps = {}, []
+        for a in fd.args.args:
+            t = {"str": "str", "bool": "bool"}.get(ast.unparse(a.annotation))
+            if t is None:
+                raise Untranslatable("parameter " + a.arg)
+            env[a.arg] = t
+            ps.append(f"({a.arg} : {t})")
+        body = self.stmts(list(fd.body), env, {})
+        return f"Definition gen_{fd.name.strip('_')} {' '.join(ps)} : result str :=\n  {body}.", ([], "rstr")
+
+
+class PinnedFn:
+    """Functions whose whole body is calls into an external library (idna, the "idna" codec): there is
+    nothing to translate except the calls themselves, which the model represents by oracles.  The
+    source text of the function (comments and docstring aside) must be EXACTLY the pinned one; then the
+    fixed Gallina reading below is emitted - try the first library call, on UnicodeError the second,
+    whose own UnicodeError (a ValueError) is the function's failure.  Any edit fails closed."""
+
+    PINNED = {
+        "_idna_encode": (
+            "@lru_cache(_DEFAULT_IDNA_SIZE)\ndef _idna_encode(host: str) -> str:\n    try:\n        return idna.encode(host, uts46=True).decode('ascii')\n"
+            "    except UnicodeError:\n        return host.encode('idna').decode('ascii').lower()",
+            "Definition gen_idna_encode (host : str) : result str :=\n"
+            "  match o_idna2008_enc O host with\n  | Some r => Ok r\n"
+            "  | None => match o_idna2003_enc O host with Some r => Ok (lower_ascii r) | None => Err ValueError end\n  end."),
+        "_idna_decode": (
+            "@lru_cache(_DEFAULT_IDNA_SIZE)\ndef _idna_decode(raw: str) -> str:\n    try:\n        return idna.decode(raw.encode('ascii'))\n"
+            "    except UnicodeError:\n        return raw.encode('ascii').decode('idna')",
+            "Definition gen_idna_decode (raw : str) : result str :=\n"
+            "  if isascii raw then\n    match o_idna2008_dec O raw with\n    | Some r => Ok r\n"
+            "    | None => match o_idna2003_dec O raw with Some r => Ok r | None => Err ValueError end\n    end\n"
+            "  else Err ValueError."),
+    }
+
+    def translate(self, fd):
+        import copy
+        fd = copy.deepcopy(fd)
+        if fd.body and isinstance(fd.body[0], ast.Expr) and isinstance(fd.body[0].value, ast.Constant) and isinstance(fd.body[0].value.value, str):
+            fd.body = fd.body[1:]
+        want, text = self.PINNED[fd.name]
+        got = ast.unparse(fd)
+        if got != want:
+            raise Untranslatable("the source of " + fd.name + " is not the pinned text")
+        return text, ([], "rstr")
+
+
 SOURCES = [
     # (source file, output module, header imports, tables usable in "x in TABLE", functions with stub signatures)
     ("_path.py", "PathGen", "From Yarl Require Export Base.PyStr.", (),
@@ -1762,6 +1953,11 @@ SOURCES = [
       ("make_netloc", "(q : str -> str) (user password host : option str) (port : option N) (encode : bool) : str", "[]", {"QUOTER": "q"})]),
     ("_parse.py", "NetlocGen", "From Yarl Require Export Base.PyStr Generated.Tables Model.Parse Model.Host Model.Url.", (),
      [("split_netloc", "(netloc : str) : result (option str * option str * option str * option N)", "Err OtherError", "parse")]),
+    ("_url.py", "HostGen",
+     "From Yarl Require Export Base.PyStr Generated.Tables Model.Parse Model.Host.\nSection G.\nVariable O : oracles.", (),
+     [("_idna_encode", "(host : str) : result str", "Err OtherError", "pinned"),
+      ("_idna_decode", "(raw : str) : result str", "Err OtherError", "pinned"),
+      ("_encode_host", "(host : str) (validate_host : bool) : result str", "Err OtherError", "host")]),
     ("_url.py", "UrlGen",
      "From Coq Require Import ZArith.\nFrom Yarl Require Export Base.PyStr Generated.Tables Model.Parse Model.Host Model.Quoters Model.Path Model.Url Model.GenTypes.\n"
      "Section G.\nVariable O : oracles.\nVariable B : backend.", (),
@@ -1805,6 +2001,8 @@ SOURCES = [
       ("URL._with_raw_name", "(self : url) (name : str) (keep_query keep_fragment : bool) : result url", "Err OtherError", "mod", "rurl"),
       ("URL.with_name", "(self : url) (name : str) (keep_query keep_fragment : bool) : result url", "Err OtherError", "mod", "rurl"),
       ("URL._make_child", "(self : url) (paths : list str) (encoded : bool) : result url", "Err OtherError", "mod", "rurl"),
+      ("URL.host", "(self : url) : result (option str)", "Err OtherError", "mod", "roptstr"),
+      ("URL.authority", "(self : url) : result str", "Err OtherError", "mod", "rstr"),
       ("URL.raw_query_string", "(self : url) : str", "[]", "mod", "str"),
       ("URL.query_string", "(self : url) : str", "[]", "mod", "str"),
       ("URL.raw_fragment", "(self : url) : str", "[]", "mod", "str"),
@@ -1813,7 +2011,9 @@ SOURCES = [
       ("URL.path_qs", "(self : url) : str", "[]", "mod", "str"),
       ("URL.parts", "(self : url) : list str", "[]", "mod", "strs"),
       ("URL.raw_suffix", "(self : url) : result str", "Err OtherError", "mod", "rstr"),
-      ("URL.with_suffix", "(self : url) (suffix : str) (keep_query keep_fragment : bool) : result url", "Err OtherError", "mod", "rurl")]),
+      ("URL.with_suffix", "(self : url) (suffix : str) (keep_query keep_fragment : bool) : result url", "Err OtherError", "mod", "rurl"),
+      ("URL.name", "(self : url) : result str", "Err OtherError", "mod", "rstr"),
+      ("URL.suffix", "(self : url) : result str", "Err OtherError", "mod", "rstr")]),
 ]
 
 
@@ -1839,7 +2039,11 @@ def generate_one(repo, fname, header, tables, wanted):
         try:
             if name not in fds:
                 raise Untranslatable("function " + name + " not found")
-            if tree and tree[0] == "parse":
+            if tree and tree[0] == "pinned":
+                text, ty = PinnedFn().translate(fds[name])
+            elif tree and tree[0] == "host":
+                text, ty = HostFn().translate(fds[name])
+            elif tree and tree[0] == "parse":
                 text, ty = ParseFn().translate(fds[name])
             elif tree and tree[0] == "mod":
                 m = ModFn(tree[1], methods)
